@@ -77,7 +77,7 @@ theorem invokeRun_real (ctx : Ctx) (fn : Fn) (params : List Param) (s : Nat) (in
     RealRoot w (InvokeClosure w s params) (InvokeReq s params) e.rootCause := by
   have hstk : Stk w w (fun x => ∃ l ∈ leavesL params, Reach w s l x) := by
     intro m hm; rw [hidle m] at hm; cases hm
-  have hb := avp_wrapErr (st0 := w) DErr.argsFailed rootCause_argsFailed w
+  have hb := avp_wrapErr (st0 := w) DErr.argsFailed rootCause_argsFailed hmd_argsFailed w
     ((engine_avail ctx w (engineFuel w params)).2.2.2.2.2 params s w (RegFrame.refl w) hstk)
   unfold invokeRun at h
   cases hbl : EM.wrapErr (buildList ctx (engineFuel w params) params s) DErr.argsFailed w with
@@ -90,7 +90,7 @@ theorem invokeRun_real (ctx : Ctx) (fn : Fn) (params : List Param) (s : Nat) (in
       | err e' =>
         simp only [failToVerdict, Verdict.err.injEq] at h
         subst h
-        exact hb.2.2 e' rfl
+        exact (hb.2.2 e' rfl).1
       | panic f x => simp [failToVerdict] at h
       | bug => simp [failToVerdict] at h
       | fuel => simp [failToVerdict] at h
@@ -136,6 +136,43 @@ theorem invokeRun_ne_badop (ctx : Ctx) (fn : Fn) (params : List Param) (s : Nat)
         | ok x l => simp at h
         | err x out => simp only at h; split at h <;> cases h
         | panic x => simp only at h; split at h <;> cases h
+
+/-! ### what an optional parameter absorbs -/
+
+/-- the provider loop of `paramSingle.Build` turns a failure of constructor `n` into the zero value of an optional
+    parameter only if that failure is a "missing type": some required single key in the closure of `n` — of `n` itself
+    or of a constructor or decorator reachable from it — has no constructor visible from where it is looked up -/
+theorem optional_absorbs_real_missing (ctx : Ctx) (st0 : St) (fuel n : Nat) (st : St) (h0 : RegFrame st0 st)
+    (hstk : Stk st0 st (ReachC st0 n (st0.ctor n).origS)) (env : TyEnv) (k : Key) (opt : Bool) (cid : Nat) (z : Val) (s2 : St)
+    (h : providerStep env k opt cid (callCtor ctx fuel n (st0.ctor n).origS st) = (.ok (some z), s2)) :
+    opt = true ∧ ∃ e ks, (callCtor ctx fuel n (st0.ctor n).origS st).1 = .error (.err e) ∧
+      e.rootCause = .missingTypes ks ∧ ks ≠ [] ∧
+      ∀ k' ∈ ks, ∃ c, st0.allProviders c k' = [] ∧ ∃ w, ReachC st0 n (st0.ctor n).origS w ∧ ReqNode st0 w c k' := by
+  have hp := (engine_avail ctx st0 fuel).1 n st h0 hstk
+  cases hr : callCtor ctx fuel n (st0.ctor n).origS st with
+  | mk x s =>
+    rw [hr] at h hp
+    cases x with
+    | ok u => simp [providerStep] at h
+    | error f =>
+      cases f with
+      | err e =>
+        simp only [providerStep] at h
+        split at h
+        · rename_i hc
+          simp only [Bool.and_eq_true] at hc
+          obtain ⟨hreal, hmd⟩ := hp.2.2 e rfl
+          obtain ⟨ks, hks⟩ := hmd hc.1
+          obtain ⟨hne, hall⟩ := hreal.mis ks hks
+          refine ⟨hc.2, e, ks, rfl, hks, hne, fun k' hk' => ?_⟩
+          obtain ⟨c, hpv, hd⟩ := hall k' hk'
+          rcases hd with hd | hd
+          · exact hd.elim
+          · exact ⟨c, hpv, hd⟩
+        · simp at h
+      | panic f x => simp [providerStep] at h
+      | bug => simp [providerStep] at h
+      | fuel => simp [providerStep] at h
 
 /-! ### the stages of Invoke -/
 
